@@ -267,6 +267,38 @@ func TestVerifC11Lines(t *testing.T) {
 		run.Eval(n)
 		run.Distinct(vlab.HashStr(text))
 	}
+	// ---- defective lines (no "mac", null mac, no "ip") right after a complete line: the loader may refuse the file;
+	// if it accepts it, the defective line's address must not end up with another host's MAC and must not
+	// rewrite the previous host's entry
+	for i := 0; i < run.Pick(60, 600)/run.NBatch()+1; i++ {
+		a1, a2 := rng.Uint32(), rng.Uint32()
+		m1 := c11macOf(a1, 7)
+		good := fmt.Sprintf(`{"ip":"%s","mac":"%s","vendor":"x"}`, oracle.IPString(oracle.U32ToIP(a1)), m1)
+		bad := []string{
+			fmt.Sprintf(`{"ip":"%s"}`, oracle.IPString(oracle.U32ToIP(a2))),
+			fmt.Sprintf(`{"ip":"%s","mac":null}`, oracle.IPString(oracle.U32ToIP(a2))),
+			fmt.Sprintf(`{"ip":"%s","vendor":"no mac here"}`, oracle.IPString(oracle.U32ToIP(a2))),
+			`{"mac":"02:de:ad:be:ef:99"}`,
+			`{"mac":"02:de:ad:be:ef:99","vendor":"no ip"}`,
+			`{}`,
+		}[rng.Intn(6)]
+		text := good + "\n" + bad + "\n"
+		run.Case(fmt.Sprintf("defective%04d", i), text)
+		cache := arp.NewCache()
+		err := arp.FillCache(cache, strings.NewReader(text))
+		run.Eval(1)
+		if err != nil {
+			run.Count("defective_files_refused", 1)
+			continue
+		}
+		if got := c11get(cache, a2, false); got != nil && a2 != a1 {
+			run.Violation("lines:defective-line-inherits-mac", fmt.Sprintf("a cache line without MAC (%s) after a complete line was accepted and maps %s to %v (the previous host's MAC is %v)", bad, oracle.IPString(oracle.U32ToIP(a2)), got, m1), text)
+		}
+		if got := c11get(cache, a1, false); !bytes.Equal(got, m1) {
+			run.Violation("lines:defective-line-rewrites-entry", fmt.Sprintf("a defective line (%s) after the line of %s changed its entry to %v (printed: %v)", bad, oracle.IPString(oracle.U32ToIP(a1)), got, m1), text)
+		}
+		run.Count("defective_files_accepted_harmlessly", 1)
+	}
 }
 
 func ipBytes(a uint32) []byte {
